@@ -140,7 +140,13 @@ def has_spec_matches(self, result):
                      {"keys": [[e['start'], list(e['key_ends']), e['two_way']] for e in sh.events][:80],
                       "root": root_label}, raise_=False)
         return False
-    # verified set: a label is verified iff its class survives (or derives)
+    # verified set: a label is verified iff its class survives the pruning.  Judged for
+    # recursive packs only: in iterative mode a label verified thanks to recursion into the
+    # root's class keeps its mark when it is later merged *into* that class, which the
+    # statement (about has_specification and the trees) does not forbid.
+    if iterative:
+        cx.count("ruledb.verified_set_not_judged_iterative")
+        return True
     _DEPTH[0] += 1
     try:
         for lab, c in comp.items():
